@@ -856,8 +856,93 @@ let run_cfg which file =
   close_in ic;
   Printf.printf "SUMMARY cases=%d disagreements=%d impl_failures=%d impl_errors=0 strict_cases=%d expansion_cases=%d\n" !n !n_dis !n_fail !n_strict !n_exp
 
+(* ---------- C13 ---------- *)
+let rec parse_value (t : string array) (i : int ref) : value =
+  let tok = t.(!i) in
+  incr i;
+  let count () = let n = int_of_string t.(!i) in incr i; List.init n (fun _ -> ()) in
+  match tok with
+  | "s" -> let v = unhex t.(!i) in incr i; VStr v
+  | "o" -> let v = unhex t.(!i) in incr i; VOpaque v
+  | "n" -> let v = zt t.(!i) in incr i; VNum v
+  | "b" -> let v = t.(!i) = "1" in incr i; VBool v
+  | "P" -> let some = t.(!i) = "1" in incr i; if some then VPtr (Some (parse_value t i)) else VPtr None
+  | "L" -> VSlice (List.map (fun () -> parse_value t i) (count ()))
+  | "D" -> VMap (List.map (fun () -> let k = unhex t.(!i) in incr i; let v = parse_value t i in (k, v)) (count ()))
+  | "T" -> VStruct (List.map (fun () -> let k = unhex t.(!i) in incr i; let v = parse_value t i in (k, v)) (count ()))
+  | other -> failwith ("value token " ^ other)
+
+let rec show_value (v : value) : string =
+  match v with
+  | VStr s -> Printf.sprintf "%S" (implode s)
+  | VOpaque s -> "<" ^ implode s ^ ">"
+  | VNum z -> string_of_int (int_of_z z)
+  | VBool b -> string_of_bool b
+  | VPtr None -> "nil"
+  | VPtr (Some x) -> "&" ^ show_value x
+  | VSlice l -> "[" ^ String.concat ", " (List.map show_value l) ^ "]"
+  | VMap m -> "map{" ^ String.concat ", " (List.map (fun (k, x) -> implode k ^ ": " ^ show_value x) m) ^ "}"
+  | VStruct m -> "{" ^ String.concat ", " (List.filter_map (fun (k, x) -> if is_empty_value x then None else Some (implode k ^ ": " ^ show_value x)) m) ^ "}"
+
+(* the first place where two value trees differ *)
+let rec first_diff (path : string) (a : value) (b : value) : string option =
+  match a, b with
+  | VStruct l, VStruct m when List.map fst l = List.map fst m ->
+    List.fold_left2 (fun acc (k, x) (_, y) -> match acc with Some _ -> acc | None -> first_diff (path ^ "." ^ implode k) x y) None l m
+  | VPtr (Some x), VPtr (Some y) -> first_diff path x y
+  | _ -> if a = b then None else Some (Printf.sprintf "%s: implementation %s, expected %s" path (show_value a) (show_value b))
+
+let run_c13 file =
+  let n = ref 0 and n_dis = ref 0 and n_fail = ref 0 and n_get = ref 0 and n_seq = ref 0 and n_foreign = ref 0 in
+  let ic = open_in file in
+  let id = ref "" and base = ref None and blocks = ref [] and gets = ref [] and vok = ref false and reg = ref []
+  and seq_bad = ref [] and base_changed = ref false and foreign_bad = ref [] and parse_err = ref false in
+  (try
+     while true do
+       let line = input_line ic in
+       let t = Array.of_list (String.split_on_char ' ' line) in
+       match t.(0) with
+       | "ocase" -> id := t.(1); base := None; blocks := []; gets := []; vok := false; reg := []; seq_bad := [];
+         base_changed := false; foreign_bad := []; parse_err := false
+       | "oparse" -> parse_err := true
+       | "oregistered" -> reg := List.map unhex (List.tl (Array.to_list t))
+       | "obase" -> base := Some (parse_value t (ref 1))
+       | "oblock" -> blocks := (unhex t.(1), parse_value t (ref 2)) :: !blocks
+       | "ovalidate" -> vok := t.(1) = "1"
+       | "oget" -> if t.(2) = "ok" then begin incr n_get; gets := (unhex t.(1), parse_value t (ref 3)) :: !gets end
+       | "oseq" -> incr n_seq; if t.(2) <> "1" then seq_bad := unhexs t.(1) :: !seq_bad
+       | "obaseafter" -> if t.(1) <> "1" then base_changed := true
+       | "oforeign" -> if int_of_string t.(2) > 0 then incr n_foreign; if t.(4) <> "1" then foreign_bad := unhexs t.(1) :: !foreign_bad
+       | "oend" ->
+         incr n;
+         (match !base with
+          | None -> if not !parse_err then begin incr n_dis; report !id false ["no-observation"] [] [] end
+          | Some b ->
+            let c = { k_base = b; k_blocks = List.rev !blocks; k_gets = List.rev !gets; k_validate_ok = !vok; k_registered = !reg } in
+            let clauses = check_C13 c in
+            let names = List.map (function OEffective f -> "effective-settings:" ^ implode f | OUnknownAccepted f -> "unknown-format-accepted:" ^ implode f) clauses in
+            let names = names
+                        @ List.map (fun f -> "get-depends-on-history:" ^ f) (List.sort_uniq compare !seq_bad)
+                        @ (if !base_changed then ["get-changed-the-configuration"] else [])
+                        @ List.map (fun f -> "foreign-entry-in-package:" ^ f) !foreign_bad in
+            if names <> [] then begin
+              incr n_fail; incr n_dis;
+              let detail = List.filter_map (function
+                  | OEffective f ->
+                    let got = List.assoc f c.k_gets in
+                    (match first_diff (implode f) got (config_get b c.k_blocks f) with Some d -> Some d | None -> Some (implode f ^ ": shapes differ"))
+                  | OUnknownAccepted f -> Some ("Validate accepted an override block for " ^ implode f)) clauses in
+              report !id false names [] detail
+            end)
+       | _ -> ()
+     done
+   with End_of_file -> ());
+  close_in ic;
+  Printf.printf "SUMMARY cases=%d disagreements=%d impl_failures=%d impl_errors=0 get_results=%d sequence_gets=%d packages_with_foreign_entries=%d\n" !n !n_dis !n_fail !n_get !n_seq !n_foreign
+
 let () =
   match Sys.argv with
+  | [| _; "C13"; file |] -> run_c13 file
   | [| _; "C05"; file |] -> let ic = open_in file in run_c05 ic; close_in ic
   | [| _; "C01"; file |] -> let ic = open_in file in run_c01 ic; close_in ic
   | [| _; "C02"; file |] -> let ic = open_in file in run_c02 ic; close_in ic
